@@ -303,6 +303,55 @@ def oracle_c06(seed=0, tier="quick", aimed=None):
                     "oracle": "c06_position_field", **info, "max_error": float(err), "positions": pos.tolist()}}
         if len(samples) < 2:
             samples.append({"oracle": "c06_weights", **info, "markers": n, "kinds": sorted(set(kinds))})
+    # ---- the coupling as the simulators wire it: a real flow simulator's coordinate field interpolated by a real
+    #      interactor's own communicator (its grid shift, its kernel) at the body's markers returns the marker positions
+    #      (cosine kernel: to within its first-moment error, far below the half-cell error of a wrong grid shift), and the
+    #      interactor's weights times the cell volume sum to one
+    import warnings
+
+    import elastica as ea
+    import sopht.simulator as sps
+    import sopht.simulator.immersed_body as spi
+
+    for dim in (2, 3):
+        r = impl.rng(seed, "c06wiring", dim)
+        n_ = 32 if dim == 2 else 20
+        shape = (n_, n_ + 6) if dim == 2 else (n_, n_ + 2, n_ + 4)
+        with warnings.catch_warnings():
+            warnings.simplefilter("ignore")
+            if dim == 2:
+                sim = sps.UnboundedNavierStokesFlowSimulator2D(grid_size=shape, x_range=float(r.uniform(0.8, 2.0)), kinematic_viscosity=1e-2, with_forcing=True, real_t=np.float64)
+                c = np.array([0.47 * sim.x_range, 0.52 * sim.y_range, 0.0])
+                body = ea.Cylinder(start=np.array([c[0], c[1], -0.05]), direction=np.array([0.0, 0, 1]), normal=np.array([1.0, 0, 0]),
+                                   base_length=0.1, base_radius=0.2 * sim.y_range, density=1e3)
+                it = spi.RigidBodyFlowInteraction(rigid_body=body, eul_grid_forcing_field=sim.eul_grid_forcing_field, eul_grid_velocity_field=sim.velocity_field,
+                                                  virtual_boundary_stiffness_coeff=-1e2, virtual_boundary_damping_coeff=-1.0, dx=sim.dx, grid_dim=2,
+                                                  forcing_grid_cls=spi.CircularCylinderForcingGrid, num_forcing_points=30)
+            else:
+                sim = sps.UnboundedNavierStokesFlowSimulator3D(grid_size=shape, x_range=float(r.uniform(0.8, 2.0)), kinematic_viscosity=1e-2, with_forcing=True, real_t=np.float64)
+                c = np.array([0.5 * sim.x_range, 0.48 * sim.y_range, 0.51 * sim.z_range])
+                body = ea.Sphere(center=c.copy(), base_radius=0.22 * sim.z_range, density=1e3)
+                it = spi.RigidBodyFlowInteraction(rigid_body=body, eul_grid_forcing_field=sim.eul_grid_forcing_field, eul_grid_velocity_field=sim.velocity_field,
+                                                  virtual_boundary_stiffness_coeff=-1e2, virtual_boundary_damping_coeff=-1.0, dx=sim.dx, grid_dim=3,
+                                                  forcing_grid_cls=spi.SphereForcingGrid, num_forcing_points_along_equator=14)
+            it()
+        cases += 1
+        X = it.forcing_grid.position_field
+        out = np.zeros_like(X)
+        it.eul_lag_grid_communicator.eulerian_to_lagrangian_grid_interpolation_kernel(
+            out, np.ascontiguousarray(sim.position_field), it.interp_weights, it.nearest_eul_grid_index_to_lag_grid)
+        dx_ = float(sim.dx)
+        err = float(np.abs(out - X).max())
+        wsum = it.interp_weights.reshape(-1, X.shape[1]).sum(axis=0) * dx_ ** dim
+        info = {"dim": dim, "grid": list(shape), "dx": dx_, "kernel": "interactor default"}
+        if err > 0.2 * dx_:
+            return {"ok": False, "cases": cases, "samples": samples, "failing_input": {
+                "oracle": "c06_simulator_wiring", "what": "the simulator's coordinate field interpolated at the body's markers by the interactor's own "
+                "communicator is off by more than 0.2 dx (grid shift / axis convention of the coupling)", **info, "max_error_in_dx": err / dx_}}
+        if np.abs(wsum - 1).max() > 1e-10:
+            return {"ok": False, "cases": cases, "samples": samples, "failing_input": {
+                "oracle": "c06_simulator_wiring", "what": "the interactor's interpolation weights times the cell volume do not sum to one", **info,
+                "max_dev": float(np.abs(wsum - 1).max())}}
     return {"ok": True, "cases": cases, "failing_input": None, "samples": samples}
 
 
